@@ -56,3 +56,16 @@ pub fn memo_walk(seen: &std::cell::RefCell<HashSet<String>>, name: &str, vars: &
     }
     out.extend(vars.iter().copied());
 }
+
+/// file opened for writing without truncation (C17 R17-d must report it): bytes beyond the new content survive
+pub fn opens_without_truncate(p: &std::path::Path) -> std::io::Result<std::fs::File> {
+    std::fs::File::options().write(true).create(true).open(p)
+}
+
+/// unkeyed memo whose value depends on a parameter (C14/C17 global-state rule must report `seed`)
+pub fn memo_once(seed: u32) -> u32 {
+    thread_local! {
+        static ONCE: std::cell::OnceCell<u32> = const { std::cell::OnceCell::new() };
+    }
+    ONCE.with(|c| *c.get_or_init(|| seed * 2))
+}
